@@ -495,7 +495,18 @@ def _unwrap_or_else(ex, callee, argv):
     raise Unsupported("unwrap_or_else on %r" % (o,))
 
 
+def _option_as_ref(ex, callee, argv):
+    r = argv[0]
+    o = ex.load(r)
+    if not (isinstance(o, Agg) and isinstance(o.variant, int)):
+        raise Unsupported("as_ref on %r" % (o,))
+    if o.variant == 0:
+        return Agg([], 0, "Option")
+    return Agg([Ref(r.cell, r.path + (0,), None, r.mut)], 1, "Option")
+
+
 TABLE = [
+    (re.compile(r"^Option::(as_ref|as_mut)$"), _option_as_ref),
     (re.compile(r"^core::str::<impl str>::len$"), _str_len),
     (re.compile(r"^core::str::<impl str>::(bytes|as_bytes)$"), _str_bytes),
     (re.compile(r"^<std::str::Bytes as IntoIterator>::into_iter$"), _into_iter),
